@@ -79,8 +79,8 @@ def run(ctx):
     return cov
 
 
-def cluster_docs(ctx, only=None):
-    consts = {"MaxClusters": 2 if ctx.quick else 3, "Keep": 1 if ctx.quick else 7, "Seed": ctx.seed}
+def cluster_docs(ctx, only=None, keep=None):
+    consts = {"MaxClusters": 2 if ctx.quick else 3, "Keep": keep or (1 if ctx.quick else 7), "Seed": ctx.seed}
     cfg = os.path.join(vlib.SPEC, "_gkfcl_%s.cfg" % ctx.pid)
     with open(cfg, "w") as f:
         f.write("SPECIFICATION Spec\nCONSTANTS\n" + "".join("  %s = %s\n" % kv for kv in consts.items()) + "INVARIANT Emit\nCHECK_DEADLOCK FALSE\n")
